@@ -126,7 +126,8 @@ N7(c) ==
   /\ cpc' = [cpc EXCEPT ![c] = IF used = M THEN "claim" ELSE "N1"]
   /\ UNCHANGED <<round, q, spare, applied, used, claim, spc, left, recv, allrecv, dup, rpc, stop, bad>>
 
-\* repaired: only the consumer that obtains the single claim token adds the extra marker (`_extra_lid.get(timeout)`);
+\* repaired: only the consumer that wins the single claim adds the extra marker (`_extra_lid.put(None, block=False)` into a
+\* one-slot queue: succeeds or fails at once in every process - D25; `claim` = 1 while the slot is free);
 \* as found: every consumer that saw `full` adds one
 Claim(c) ==
   /\ cpc[c] = "claim"
